@@ -1,24 +1,42 @@
 //! Scratch bring-up probes (not a registered check).
-use crate::c07::*;
-use crate::explore::Tape;
-use jxl_oxide::{JxlImage, JxlThreadPool};
-use std::sync::{Arc, Mutex};
-
+use jxl_color::*;
 pub fn main(_args: &crate::Args) {
-    crate::util::install_panic_hook();
-    let scs = scenarios(false);
-    let sc = scs.iter().find(|s| s.name == "rgb-130x130-groups-localtree-corrupt-section3").unwrap();
-    let img = JxlImage::builder().pool(JxlThreadPool::none()).read(&sc.bytes[..]).unwrap();
-    println!("none first: {:?}", img.render_frame(0).map(|_| ()).map_err(|e| e.to_string()));
-    println!("render_all none: {:?}", render_all(&sc.bytes, JxlThreadPool::none()));
-    println!("render_all none: {:?}", render_all(&sc.bytes, JxlThreadPool::none()));
-    for tape in [vec![], vec![3u32, 0, 1, 0, 1, 0, 0, 0], vec![1, 0, 0, 0, 0, 0, 0, 0], vec![3, 0, 0, 0, 0, 0], vec![2, 0, 0, 0, 0, 0, 0]] {
-        let hooks = Arc::new(TapeHooks { tape: Mutex::new(Tape::from_answers(&tape)), picks: Mutex::new(vec![]) });
-        let pool = JxlThreadPool::verif(hooks.clone());
-        let img = JxlImage::builder().pool(pool).read(&sc.bytes[..]).unwrap();
-        let r = img.render_frame(0);
-        println!("tape {:?}: {} picks {:?}", tape, match &r { Ok(_) => "ok".to_string(), Err(e) => format!("ERR {e}") }, hooks.picks.lock().unwrap());
+    let e = |tf| ColorEncodingWithProfile::new(EnumColourEncoding { colour_space: ColourSpace::Rgb, white_point: WhitePoint::D65, primaries: Primaries::Srgb, tf, rendering_intent: RenderingIntent::Relative });
+    use jxl_oxide_common::Bundle;
+    let mut w = jxlw::bits::BitWriter::new();
+    let mut h = jxlw::headers::ImageHeader::simple(8, 8, false, 8);
+    h.size.div8 = true;
+    h.all_default = true;
+    h.write(&mut w, &jxlw::headers::Sel::default());
+    let b = w.finish();
+    let mut bs = jxl_bitstream::Bitstream::new(&b);
+    let hdr = jxl_image::ImageHeader::parse(&mut bs, ()).unwrap();
+    let m = &hdr.metadata;
+    let fwd = ColorTransform::new(&e(TransferFunction::Linear), &e(TransferFunction::Srgb), &m.opsin_inverse_matrix, &m.tone_mapping, &NullCms).unwrap();
+    let bwd = ColorTransform::new(&e(TransferFunction::Srgb), &e(TransferFunction::Linear), &m.opsin_inverse_matrix, &m.tone_mapping, &NullCms).unwrap();
+    let n = 200001usize;
+    let xs: Vec<f32> = (0..n).map(|i| i as f32 / 200000.0).collect();
+    let (mut a, mut b, mut c) = (xs.clone(), xs.clone(), xs.clone());
+    fwd.run(&mut [&mut a[..], &mut b[..], &mut c[..]]).unwrap();
+    let enc = a.clone();
+    bwd.run(&mut [&mut a[..], &mut b[..], &mut c[..]]).unwrap();
+    for d in 0..20 {
+        let (lo, hi) = (d * 10000, (d + 1) * 10000 + if d == 19 { 1 } else { 0 });
+        let mut me = 0f64; let mut mr = 0f64;
+        for i in lo..hi {
+            let x = xs[i] as f64;
+            let t = if x <= 0.0031308 { 12.92 * x } else { 1.055 * x.powf(1.0 / 2.4) - 0.055 };
+            me = me.max((enc[i] as f64 - t).abs());
+            mr = mr.max((a[i] as f64 - x).abs());
+        }
+        println!("x in [{:.2},{:.2}]: max encode err {:.2e}, max roundtrip err {:.2e}", lo as f64 / 2e5, hi as f64 / 2e5, me, mr);
     }
-    let img = JxlImage::builder().pool(JxlThreadPool::none()).read(&sc.bytes[..]).unwrap();
-    println!("none: {:?}", img.render_frame(0).map(|_| ()).map_err(|e| e.to_string()));
+    for n in [1usize] {
+        let xs: Vec<f32> = (0..n).map(|i| 1.0 - i as f32 * 1e-4).collect();
+        let (mut a, mut b, mut c) = (xs.clone(), xs.clone(), xs.clone());
+        fwd.run(&mut [&mut a[..], &mut b[..], &mut c[..]]).unwrap();
+        let enc = a.clone();
+        bwd.run(&mut [&mut a[..], &mut b[..], &mut c[..]]).unwrap();
+        println!("n={n} x={:?}\n   enc={:?}\n   dec={:?}", &xs[..n.min(4)], &enc[..n.min(4)], &a[..n.min(4)]);
+    }
 }
